@@ -788,7 +788,10 @@ func imageBase(c *fw.Ctx, i int) *base {
 	for k := 0; k < 5; k++ {
 		pg.Images = append(pg.Images, pdfw.GenImageSpec(r))
 	}
-	pages = append(pages, pg, pdfw.ImagePage{Images: []pdfw.ImageSpec{pdfw.GenImageSpec(r), pdfw.GenImageSpec(r)}})
+	// the last image always has an Indexed colour space held in an object of its own whose
+	// base is a reference, so the reference faults include a colour space that is its own base
+	pages = append(pages, pg, pdfw.ImagePage{Images: []pdfw.ImageSpec{pdfw.GenImageSpec(r), pdfw.GenImageSpec(r),
+		{W: 3 + r.Intn(9), H: 3 + r.Intn(9), BPC: []int{1, 4, 8}[r.Intn(3)], CS: "IndexedCSRef", Filter: []string{"", "Fl"}[r.Intn(2)]}}})
 	data, fields := pdfw.ImagePDF(r, pages)
 	return &base{id: fmt.Sprintf("pdfimg%d", i), kind: "pdf", ext: "pdf", data: data, fields: fields, desc: fmt.Sprintf("image XObjects %+v / %+v", pages[0].Images, pages[1].Images)}
 }
